@@ -57,7 +57,7 @@ CHECKS = {
     "C11": dict(
         level="model_checking",
         rule="hook status(6) x live-vs-cached parent(5: same, spec edited, labels edited, recreated with new UID, gone) x existing status(3) x real conflicts caused between GET and PUT(0,1,2,4) x injected fault on the status path(5) x child reconciliation ok/fails; "
-             "plus the finalize path (finalized x live edited x foreign finalizer); every case distinct, one real sync each",
+             "plus the finalize path (finalized x live edited x foreign finalizer); every case distinct, one real sync each + the live status edited behind the cache (cached status already equal to the desired one); discovery lists a scale subresource after status for the parent kind",
         units=[
             dict(pkg=COMPOSITE, test="TestVerifC11", shards=dict(quick=8, thorough=16), budget=dict(quick=300, thorough=900)),
         ],
@@ -76,7 +76,7 @@ CHECKS = {
     "C19": dict(
         level="model_checking",
         rule="part 1: status(12 incl. transport error) x ETag header(3) x Retry-After(5) x body(6) x strict/loose x plain/etag executor x cache state(3) on the real webhookExecutor.Call; "
-             "part 2: ALL interleavings of 2 (thorough: 3 -> 1680 schedules) concurrent calls with the same cache key at the granularity enrich-headers / server decision / adjust+decode, x every pattern of server content changes x cache primed or empty",
+             "part 2: ALL interleavings of 2 (thorough: 3 -> 1680 schedules) concurrent calls with the same cache key at the granularity enrich-headers / server decision / adjust+decode, x every pattern of server content changes x cache primed or empty + a cache primed with a body that carries an unknown field (stored with its ETag before decoding: strict mode must reject it again when a 304 brings it back)",
         units=[
             dict(pkg=HOOKS, test="TestVerifC19", shards=dict(quick=2, thorough=8), budget=dict(quick=300, thorough=900)),
         ],
@@ -86,6 +86,7 @@ CHECKS = {
     "C15": dict(
         level="model_checking",
         rule="parent scope(2) x all rule sets of 1 and 2 rules over resource(2: namespaced, cluster-scoped) x selection(10: none, empty selector, matchLabels, matchExpressions, namespace own/foreign, names, namespace+names, two invalid mixes) = 840 sets, against 7 related objects across two namespaces and cluster scope, each also with a second hosted controller (own customize hook, other rules) looking at the same parent first, for composite and decorator controllers; "
+             "a related object that changes while no customize answer is remembered for the parent's new generation must still wake the parent; "
              "each case: sync, cached re-sync, a change of every related object, a parent generation change, finalize",
         units=[
             dict(pkg=COMPOSITE, test="TestVerifC15", shards=dict(quick=4, thorough=8), budget=dict(quick=300, thorough=600)),
@@ -138,7 +139,7 @@ CHECKS = {
     "C07": dict(
         level="model_checking",
         rule="rollout states built directly in the cluster: per child (revision assignment: unclaimed / v1..latest) x (content: missing / v1..latest) x (health: healthy, Ready=False, no status, stale observedGeneration, wrong reason), n=1..2 children (thorough: 3 with three health values), "
-             "x method(2) x status checks(4: none, type, +status, +reason) x field paths (default; custom; custom + non-revisioned field changed) x 2 or 3 live revisions x latest revision exists or not x generateSelector x hook with its own Updated condition; one real sync from every state, clauses M0-M5",
+             "x method(2) x status checks(4: none, type, +status, +reason) x field paths (default; custom; custom + non-revisioned field changed) x 2 or 3 live revisions x latest revision exists or not x generateSelector x hook with its own Updated condition; one real sync from every state, clauses M0-M5 + states in which an older revision also claims a child that only its own view of the parent desires (tail of a scale-down), existing or not: M6 = claimed by no revision afterwards, never written, deleted if present",
         units=[
             dict(pkg=COMPOSITE, test="TestVerifC07", shards=dict(quick=16, thorough=16), budget=dict(quick=600, thorough=3300)),
         ],
@@ -157,7 +158,7 @@ CHECKS = {
     "C12": dict(
         level="fault_enumeration",
         rule="base scenarios: composite 'mixed' sync (finalizer add, adopt, release, delete undesired, in-place update, recreate, create, status write), composite 'rolling' (second move of a rollout: ControllerRevision writes + child update), decorator 'mixed' (finalizer, label/annotation/status writes, attachment create/update/recreate/delete); "
-             "every request of the sync x each of 404, 409, 410, 422, 500, timeout, lost response (singles exhaustively; thorough: all pairs of requests for 409/500/timeout), sticky per-child failures x 3 kinds, a failing child combined with a benign end of the status path, hook 500/503/429/refused/garbage; real benign races (the environment really removes / edits the target just before each child get/update/delete: tolerated = the hook is still called, no error is reported, same final state); each through the real processNextWorkItem, then fault-free to quiescence",
+             "every request of the sync x each of 404, 409, 410, 422, 500, timeout, lost response (singles exhaustively; thorough: all pairs of requests for 409/500/timeout), sticky per-child failures x 3 kinds, a failing child combined with a benign end of the status path, hook 500/503/429/refused/garbage, a 429 for only the old / only the latest revision's call of a rollout; real benign races (the environment really removes / edits the target just before each child get/update/delete: tolerated = the hook is still called, no error is reported, same final state); each through the real processNextWorkItem, then fault-free to quiescence",
         units=[
             dict(pkg=COMPOSITE, test="TestVerifC12", shards=dict(quick=8, thorough=16), budget=dict(quick=300, thorough=1800)),
             dict(pkg=DECORATOR, test="TestVerifC12", shards=dict(quick=2, thorough=4), budget=dict(quick=300, thorough=900)),
@@ -213,7 +214,7 @@ CHECKS = {
     "C20": dict(
         level="model_checking",
         rule="explicit-state BFS over sequences of CompositeController / DecoratorController events through the real Metacontroller.Reconcile: create, spec-changing update, no-op (metadata-only) update, delete, with 18 (decorator 16) spec variants = 2 plain + 8 valid optional-webhook-field variants (every ETag field set or unset, timeout zero/negative, strict, service+path) + 8 (6) configurations that cannot start; "
-             "one name with the full alphabet to depth 3 (thorough 4; the frontier empties = any number of further events), two names with a reduced alphabet to depth 3 (thorough 5, full alphabet 3); state = stored spec + running spec per name; after every event: instance set, specs, restart/no-op identity, stopped instances (queue shut, no handlers), factory refcounts, parent-event wake-up and hook isolation",
+             "one name with the full alphabet to depth 3 (thorough 4; the frontier empties = any number of further events), two names with a reduced alphabet to depth 3 (thorough 5, full alphabet 3); state = stored spec + running spec per name; after every event: instance set, specs, restart/no-op identity, stopped instances (queue shut, no handlers), factory refcounts, parent-event wake-up and hook isolation + a stop while the first sync is still waiting for the customize hook: subscriptions to related resources opened by that sync after Stop began must be released",
         units=[
             dict(pkg=COMPOSITE, test="TestVerifC20", shards=dict(quick=8, thorough=16), budget=dict(quick=600, thorough=3000)),
             dict(pkg=DECORATOR, test="TestVerifC20", shards=dict(quick=8, thorough=16), budget=dict(quick=600, thorough=3000)),
